@@ -81,6 +81,8 @@ pub struct Ctx {
     pub start: Instant,
     pub exhaustive: Mutex<bool>,
     pub known: Vec<KnownFinding>,
+    /// sessions that ended in a bare watchdog / infrastructure trouble (never a verdict)
+    pub inconclusive: std::sync::atomic::AtomicU64,
 }
 
 pub fn fnv(s: &str) -> u64 {
@@ -114,6 +116,7 @@ impl Ctx {
             start: Instant::now(),
             exhaustive: Mutex::new(false),
             known: load_known(),
+            inconclusive: std::sync::atomic::AtomicU64::new(0),
         }
     }
 
@@ -213,6 +216,17 @@ impl Ctx {
         S::Value: Serialize + Clone + std::fmt::Debug + Send,
         F: Fn(&S::Value, &mut CaseInfo) -> Outcome + Sync,
     {
+        self.run_prop_shrink(sub, cases, threads, 4000, mk, test)
+    }
+
+    /// as run_prop with an explicit bound on shrink iterations (expensive cases: server sessions)
+    pub fn run_prop_shrink<S, M, F>(&self, sub: &str, cases: u32, threads: u32, shrink_iters: u32, mk: M, test: F)
+    where
+        S: Strategy,
+        M: Fn() -> S + Sync,
+        S::Value: Serialize + Clone + std::fmt::Debug + Send,
+        F: Fn(&S::Value, &mut CaseInfo) -> Outcome + Sync,
+    {
         let threads = threads.max(1);
         let per = (cases + threads - 1) / threads;
         let fail: Mutex<Option<(S::Value, String)>> = Mutex::new(None);
@@ -228,7 +242,7 @@ impl Ctx {
                         cases: per,
                         failure_persistence: None,
                         rng_seed: RngSeed::Fixed(seed),
-                        max_shrink_iters: 4000,
+                        max_shrink_iters: shrink_iters,
                         max_global_rejects: 100_000,
                         ..Config::default()
                     };
@@ -351,6 +365,7 @@ impl Ctx {
             "known_finding_lines": *self.known_lines.lock().unwrap(),
             "notes": *self.notes.lock().unwrap(),
             "exhaustive": *self.exhaustive.lock().unwrap(),
+            "inconclusive_sessions": self.inconclusive.load(std::sync::atomic::Ordering::SeqCst),
         });
         for (k, v) in self.extra.lock().unwrap().iter() {
             coverage[k] = v.clone();
@@ -380,8 +395,12 @@ impl Ctx {
             viol.len(),
             self.start.elapsed().as_secs_f64()
         );
+        let inc = self.inconclusive.load(std::sync::atomic::Ordering::SeqCst);
         if !viol.is_empty() {
             1
+        } else if inc > 0 {
+            println!("[{}] INCONCLUSIVE: {} session(s) hit the watchdog without evidence of a defect", self.id, inc);
+            2
         } else if st.evaluations == 0 || st.nontrivial.len() < 2 {
             println!("[{}] INCONCLUSIVE: vacuous run (evaluations={}, nontrivial={})", self.id, st.evaluations, st.nontrivial.len());
             2
